@@ -79,6 +79,15 @@ func c02RunPairs(r *Run, rng *Rng) {
 		pairs = append(pairs, c02Pair{bench: "matrixtranspose", arch: "gcn3", params: DefaultParams("matrixtranspose"), knobs: map[string]int{"magicMemoryCopy": 1}})
 	}
 	pairs = append(pairs, c02Pair{bench: "fir", arch: "gcn3", params: DefaultParams("fir"), knobs: map[string]int{"magicMemoryCopy": 1}})
+	// multi-kernel workloads whose later kernels read, on one compute unit, what another compute unit wrote
+	// in an earlier kernel: they differed from emulation until the command processor emptied the L1 caches
+	// at kernel start (C02-stale-l1-across-kernels*); bitonicsort length=256 is in the list above
+	if known["pagerank"] && hasArch("pagerank", "gcn3") {
+		pairs = append(pairs, c02Pair{bench: "pagerank", arch: "gcn3", params: map[string]int{"node": 128, "sparsity-permille": 500, "iterations": 3}})
+	}
+	if known["floydwarshall"] && hasArch("floydwarshall", "gcn3") {
+		pairs = append(pairs, c02Pair{bench: "floydwarshall", arch: "gcn3", params: map[string]int{"node": 20, "iter": 0}})
+	}
 	var specs []WorkloadSpec
 	for _, p := range pairs {
 		gt := "r9nano"
